@@ -3,7 +3,10 @@ package main
 // Property registry. Each property lists its harness dirs and the job table
 // (harness instances = program skeletons with concrete sizes).
 
-import "strconv"
+import (
+	"strconv"
+	"strings"
+)
 
 func itoa(n int) string { return strconv.Itoa(n) }
 
@@ -185,7 +188,11 @@ func c04jobs(harness string, tier string) []Job {
 				slots = "all"
 				nn = 3
 			}
-			p := P("types", ts, "n", itoa(nn), "null", nl, "ix", ixm, "agg", "none", "cols", "given", "slots", slots)
+			ixj := ixm
+			if strings.Contains(ts, ",") || ts == "float" {
+				ixj = "rev" // two key columns / float keys: one fixed arrangement (every arrangement took > 25 min)
+			}
+			p := P("types", ts, "n", itoa(nn), "null", nl, "ix", ixj, "agg", "none", "cols", "given", "slots", slots)
 			jobs = append(jobs, Job{Harness: harness, Params: p, MaxPaths: 200000})
 			if harness == "VX_C05_distinct" && (ts == "int" || ts == "string,int") {
 				q := P("types", ts, "n", itoa(nn), "null", nl, "ix", ixm, "agg", "none", "cols", "all", "slots", "017")
@@ -232,7 +239,7 @@ func init() {
 		Jobs:   func(tier string) []Job { return c04jobs("VX_C04_groupby", tier) },
 		Bounds: func(tier string) string {
 			if tier == "thorough" {
-				return "n=4 rows (int key) / n=3 (other key types) of P=n+1 physical rows in every arrangement, 1-2 key columns of all five types, both Null settings, 8 aggregations; hash table of 8 slots (no growth step reached end-to-end)"
+				return "n=3 rows of P=4 physical rows in every arrangement for single int/bool/string/enum keys (all 8 start slots for int), one fixed arrangement for float and two-column keys, both Null settings, 10 aggregations on n=4; hash table of 8 slots end-to-end; the table itself across growth steps (hash = key with 6-11 rows and keys spread or in one probe chain; uninterpreted hash with start slots {0,1,8,15})"
 			}
 			return "n=3 rows of P=4 physical rows (fixed non-identity arrangement), 1-2 key columns of all five types, both Null settings, 8 aggregations (on a concrete bool key pattern and without key; cell values symbolic); hash table of 8 slots; user aggregations returning their first/last argument on a concrete string column; a concrete enum key pattern with three nulls (n=4 in every arrangement, n=5); plus the table itself across its first growth step (7 rows, 5-6 distinct abstract keys, hash = key, keys spread or all in one probe chain (stride 8/16); thorough: also an uninterpreted hash with start slots {0,1,8,15})"
 		},
@@ -244,7 +251,7 @@ func init() {
 		Jobs:   func(tier string) []Job { return c04jobs("VX_C05_distinct", tier) },
 		Bounds: func(tier string) string {
 			if tier == "thorough" {
-				return "n=4 rows (int key) / n=3 (other key types) of P=n+1 physical rows in every arrangement, 1-2 key columns of all five types or all columns, both Null settings"
+				return "n=3 rows of P=4 physical rows in every arrangement for single int/bool/string/enum keys (all 8 start slots for int), one fixed arrangement for float and two-column keys, or all columns, both Null settings; concrete enum key pattern with three nulls (n=4 every arrangement, n=5); source frame and first result re-observed after a second Distinct; the table itself across growth steps"
 			}
 			return "n=3 rows of P=4 physical rows (fixed non-identity arrangement), 1-2 key columns of all five types or all columns, both Null settings; a concrete enum key pattern with three nulls (n=4 in every arrangement, n=5); the source frame and the first result re-observed after a second Distinct; the hash table across its first growth step incl. keys in one probe chain"
 		},
